@@ -50,6 +50,24 @@ def level_location(level, cache_dir, dimensions=None):
         return os.path.join(cache_dir, dim_path, "%02d" % level)
 
 
+def _dimension_dirname(value):
+    """
+    Dimension names and values can come straight from a request (TIME, ELEVATION, DIM_*).
+    They are used as (part of) a single directory name and must never be able to
+    introduce additional path segments.
+
+    >>> _dimension_dirname('2020-08-25T00:00:00Z')
+    '2020-08-25T00:00:00Z'
+    >>> _dimension_dirname('a/../../b')
+    'a_.._.._b'
+    """
+    value = str(value)
+    for sep in ('/', '\\', os.sep, os.altsep):
+        if sep:
+            value = value.replace(sep, '_')
+    return value
+
+
 def dimensions_part(dimensions):
     """
     Return the subpath where all tiles for `dimensions` will be stored.
@@ -66,7 +84,8 @@ def dimensions_part(dimensions):
         for dim in dims.keys():
             (custom_dims if dim.startswith('dim_') else predefined_dims).append(dim)
         dim_keys = sorted(predefined_dims) + sorted(custom_dims)
-        return os.path.join(*(map(lambda k: k + "-" + str(dims.get(k, 'default')), dim_keys)))
+        return os.path.join(*(map(
+            lambda k: _dimension_dirname(k) + "-" + _dimension_dirname(dims.get(k, 'default')), dim_keys)))
     else:
         return ""
 
